@@ -458,7 +458,7 @@ COL = lambda cid, typ, formula=None: {"id": cid, "type": typ, "isFormula": formu
 SETUP = [
   [["InitNewDoc"]],
   [["AddTable", "W", [COL("n", "Int")]], ["AddRecord", "W", None, {"n": 0}]],
-  [["AddTable", "P", [COL("A", "Int"), COL("C", "Text")]],
+  [["AddTable", "P", [COL("A", "Int"), COL("C", "Text"), COL("R", "RefList:W")]],
    ["BulkAddRecord", "P", [None, None, None], {"A": [1, 2, 3]}]],
   [["AddTable", "H", [COL("A", "Int"), COL("F", "Any", H_FORMULA), COL("C", "Text")]]],
 ]
@@ -564,6 +564,10 @@ def run_script(sess, script):
         c["sync"] = False
     elif kind == "apply_hostile":
       c, _ = sess.observed(kind, "apply_user_actions", [[sess.witness(), ["AddRecord", "H", None, {"A": sess.wn}]]])
+    elif kind == "apply_wire":
+      # data of Node's for a typed cell: a list of row ids; the engine rejects a negative one (unknown temporary id)
+      refs = ["L", 1] if sess.wn % 2 else ["L", -1]
+      c, _ = sess.observed(kind, "apply_user_actions", [[sess.witness(), ["UpdateRecord", "P", 2, {"R": refs}]]])
     elif kind == "apply_ext_hostile":
       c, _ = sess.observed(kind, "apply_user_actions",
                            [[sess.witness(), ["ConvertFromColumn", "H", "F", "C", "Text", "", 0]]],
@@ -635,6 +639,8 @@ def run_value(sess, local, inp, k):
     if skip and key != "remove":
       continue          # the row of this case does not exist: the remaining calls would not be valid ones
     if name == "apply_user_actions":
+      if key == "addrecord" and inp["mode"] == "cell":
+        kind = "apply_wire"       # the engine may refuse the data
       c, body = sess.observed(kind, name, [[sess.witness(), acts[key]]],
                               responder=convert_responder("DATA") if key == "convert" else None)
       c["step"] = key
